@@ -1,5 +1,5 @@
 """Conversions between aw_core Event objects and the model's integer view."""
-from datetime import datetime, timedelta, timezone
+from datetime import datetime, timedelta, timezone, tzinfo
 
 EPOCH = datetime(1970, 1, 1, tzinfo=timezone.utc)
 US = timedelta(microseconds=1)
@@ -23,8 +23,59 @@ def pulse_us(seconds):
     return timedelta(seconds=seconds) // US
 
 
+class SynthZone(tzinfo):
+    """A legal PEP 495 time zone with ONE offset change at the UTC instant `t_us` (from `before` to `after` minutes).
+    `after > before` leaves a gap in wall time, `after < before` a fold.  The transitions sit a few seconds after
+    BASE, where the small grids of the transform checks live, so that an implementation which stops normalising
+    event timestamps to UTC (wall-clock arithmetic on aware datetimes, comparisons that ignore `fold`) goes wrong
+    on generated inputs.  For the unchanged code the zone is irrelevant: Event converts to UTC on assignment."""
+
+    def __init__(self, t_us, before, after, name):
+        self.t = datetime(1970, 1, 1) + timedelta(microseconds=t_us)   # naive UTC
+        self.before, self.after, self.name = timedelta(minutes=before), timedelta(minutes=after), name
+
+    def utcoffset(self, d):
+        w = d.replace(tzinfo=None)
+        is_before, is_after = w - self.before < self.t, w - self.after >= self.t
+        if is_before and is_after:      # ambiguous wall time (fold)
+            return self.after if d.fold else self.before
+        if is_before:
+            return self.before
+        if is_after:
+            return self.after
+        return self.after if d.fold else self.before   # wall time inside the gap (PEP 495)
+
+    def dst(self, d):
+        return timedelta(0)
+
+    def tzname(self, d):
+        return self.name
+
+    def fromutc(self, d):
+        u = d.replace(tzinfo=None)
+        if u < self.t:
+            return (u + self.before).replace(tzinfo=self)
+        w = u + self.after
+        return w.replace(tzinfo=self, fold=1 if w - self.before < self.t else 0)
+
+    def __repr__(self):
+        return f"SynthZone({self.name})"
+
+
+ZONES = [timezone.utc, timezone.utc, timezone.utc,
+         timezone(timedelta(hours=5, minutes=30)), timezone(timedelta(hours=-8)),
+         SynthZone(BASE + 3_000_000, 60, 120, "gap"), SynthZone(BASE + 5_000_000, 120, 60, "fold"),
+         SynthZone(BASE - 2_000_000, -300, -240, "gap-west"), SynthZone(BASE + 40_000_000, 0, -60, "fold-late")]
+
+
+def dt_zoned(us):
+    """The instant `us` as an aware datetime in a zone chosen deterministically from the instant."""
+    z = ZONES[(us // 1000) % len(ZONES)]
+    return dt(us) if z is timezone.utc else dt(us).astimezone(z)
+
+
 def mk_event(Event, ts_us, dur_us, data, eid=None):
-    return Event(id=eid, timestamp=dt(ts_us), duration=timedelta(microseconds=dur_us), data=data)
+    return Event(id=eid, timestamp=dt_zoned(ts_us), duration=timedelta(microseconds=dur_us), data=data)
 
 
 def ev_view(e, labels):
